@@ -7,46 +7,8 @@
 (* protocol's encoding, and both readers must decode it back to the value. *)
 (* Role B: the same universe is serialised as cases for the real code.     *)
 (***************************************************************************)
-EXTENDS Reader, TLC, Json, SequencesExt
+EXTENDS WireUniverse
 
-CONSTANTS MaxElems,      \* elements/fields per container at depth 1
-          Deep           \* include depth-3 values
-
-\* representatives of every wire type used as elements of deeper containers
-NestedOf(t) ==
-  CASE t = TStruct -> { [t |-> TStruct, f |-> <<>>],
-                        [t |-> TStruct, f |-> << [id |-> 1, v |-> Num(TI8, -1)] >>] }
-    [] t = TList   -> { [t |-> TList, et |-> TI32, e |-> <<>>],
-                        [t |-> TList, et |-> TI32, e |-> << Num(TI32, 16909060) >>] }
-    [] t = TSet    -> { [t |-> TSet, et |-> TBinary, e |-> <<>>],
-                        [t |-> TSet, et |-> TBinary, e |-> << Bin(<<255>>), Bin(<<>>) >>] }
-    [] t = TMap    -> { [t |-> TMap, kt |-> TI16, vt |-> TBool, m |-> <<>>],
-                        [t |-> TMap, kt |-> TI16, vt |-> TBool, m |-> << [k |-> Num(TI16, -2), v |-> Num(TBool, 1)] >>] }
-    [] OTHER       -> ScalarsSmall(t)
-
-ContainerTypes == {TStruct, TMap, TSet, TList}
-
-ContainersOver(El(_), n) ==
-  UNION { ListsOver(El(t), t, n) \cup SetsOver(El(t), t, n) : t \in ContainerTypes }
-  \cup UNION { MapsOver(El(kt), El(vt), kt, vt, n) :
-                 kt \in ContainerTypes \cup {TBinary, TI32}, vt \in ContainerTypes \cup {TDouble} }
-  \cup StructsOver(UNION { El(t) : t \in ContainerTypes }, n, {1, -1})
-
-Depth2 == ContainersOver(NestedOf, 2)
-
-\* depth 3: one more level over a few depth-2 representatives
-Nested2Of(t) ==
-  CASE t = TStruct -> { [t |-> TStruct, f |-> << [id |-> 2, v |-> CHOOSE x \in NestedOf(TList) : x.e # <<>>] >>] }
-    [] t = TList   -> { [t |-> TList, et |-> TStruct, e |-> << CHOOSE x \in NestedOf(TStruct) : x.f # <<>> >>] }
-    [] t = TSet    -> { [t |-> TSet, et |-> TMap, e |-> << CHOOSE x \in NestedOf(TMap) : x.m # <<>> >>] }
-    [] t = TMap    -> { [t |-> TMap, kt |-> TSet, vt |-> TList,
-                         m |-> << [k |-> CHOOSE x \in NestedOf(TSet) : x.e # <<>>, v |-> CHOOSE x \in NestedOf(TList) : x.e = <<>>] >>] }
-    [] OTHER       -> ScalarsSmall(t)
-Depth3 == ContainersOver(Nested2Of, 2)
-
-Universe == AllScalars \cup Depth1(MaxElems) \cup Depth2 \cup (IF Deep THEN Depth3 ELSE {})
-
----------------------------------------------------------------------------
 VARIABLES v, calls, outb
 
 Init == /\ v \in Universe
